@@ -43,6 +43,7 @@ func c13Builder(c *Check) {
 		if !hasRef || hasCycle(evs) {
 			return
 		}
+		c.Count("refdoc"+evsString(evs), true)
 		origToks, err := resolveTokens(normStream(evs, normOpts{DropComments: true, DropPadding: true}))
 		if err != nil {
 			return
@@ -72,7 +73,11 @@ func c13Builder(c *Check) {
 				})
 				wit := map[string]interface{}{"kind": "refs-built", "format": format, "events": evs, "doc": printable(doc), "typed": tmpl != nil}
 				if p != nil || hung || uerr != nil {
-					c.Violation(fmt.Sprintf("a valid %s document with references cannot be unmarshaled (template %T): %v %v hang=%v; stream %s", format, tmpl, uerr, p, hung, evsString(evs)), wit)
+					msg := fmt.Sprintf("a valid %s document with references cannot be unmarshaled (template %T): %v %v hang=%v; stream %s", format, tmpl, uerr, p, hung, evsString(evs))
+					if d := c06Deviation(evs, msg); d != "" && c.Finding(d) {
+						continue
+					}
+					c.Violation(msg, wit)
 					continue
 				}
 				back, merr := ce.MarshalToCBEDocument(v, mcfg)
